@@ -350,6 +350,13 @@ def run(ctx):
     loc_rules(crate, "errors::query_params::location_query_param_description", True, res)
     value_rules(crate, res)
     merge_rules(crate, res)
+    # C14.SUGGEST: "a suggestion only when one is close" is did_you_mean's contract (C18's rules, re-checked here
+    # because both built-in messages rely on it)
+    import p_c18
+    r18 = p_c18.run(ctx)
+    from lin import Finding as _F
+    fs18 = [_F("C14.SUGGEST/" + f.rule, f.body, f.what, f.at, f.detail) for f in r18.findings]
+    res.add("C14.SUGGEST", sum(v2[0] for v2 in r18.rules.values()), fs18)
     # C14.BREAK = C03.BUILTIN
     import p_c03
     p_c03.builtin_break(ctx, res)
